@@ -53,6 +53,20 @@ example : litDecode [92, 34, 92, 92, 92, 110, 0xC3, 0xA9, 92, 120, 102, 102, 92,
 /-- what the decoder refuses: a body that would close the literal, or break the line -/
 example : litDecode [97, 34, 98] = none ∧ litDecode [97, 10] = none ∧ litDecode [92] = none ∧ litDecode [92, 113] = none := by decide +kernel
 
+/-- **A carriage return ends static content wherever a line feed does** — every stop set of the lexer
+(as extracted from lexers.go on this run) that delimits a tag name, id, class, attribute name, text line,
+comment, doctype or filter line and contains `\n` contains `\r` as well: in a file with CRLF line ends no
+static position swallows the carriage return of its line end. -/
+theorem static_content_stops_at_cr :
+    (10 ∈ Gen.hamlIdentifier_acceptUntil0 → 13 ∈ Gen.hamlIdentifier_acceptUntil0) ∧
+    (10 ∈ Gen.lexGohtAttributeName_acceptUntil0 ∧ 13 ∈ Gen.lexGohtAttributeName_acceptUntil0) ∧
+    (10 ∈ Gen.lexAttributeCommandStart_acceptUntil0 ∧ 13 ∈ Gen.lexAttributeCommandStart_acceptUntil0) ∧
+    (10 ∈ Gen.lexGohtTextContent_acceptUntil0 ∧ 13 ∈ Gen.lexGohtTextContent_acceptUntil0) ∧
+    (10 ∈ Gen.lexComment_acceptUntil0 ∧ 13 ∈ Gen.lexComment_acceptUntil0) ∧
+    (10 ∈ Gen.lexGohtDoctype_acceptUntil0 ∧ 13 ∈ Gen.lexGohtDoctype_acceptUntil0) ∧
+    (10 ∈ Gen.lexFilterStart_acceptUntil0 ∧ 13 ∈ Gen.lexFilterStart_acceptUntil0) ∧
+    (10 ∈ Gen.lexFilterContent_acceptUntil0 ∧ 13 ∈ Gen.lexFilterContent_acceptUntil0) := by decide
+
 -- PLANNED: per-site theorem for each static position k: the chunk spliced into the Go literal is quoteBody (…)
 -- KNOWN (recorded finding): content containing the whitespace-marker sequences is eaten by the eraser
 
